@@ -145,30 +145,65 @@ TauLaws(r) ==
 
 (* ----------------------------- accumulator ------------------------------- *)
 \* obs[i] = <<peeled ok, l0, l1, top, distance of a(0) from the rounded held value, probe mismatch, probe changed state>>
+\* followed, for a comparison (kind 7), by <<c, ==, !=, <, <=, >, >=>> and, for remainder (kind 8), by the low-word flag
+AccObsOK(r, op, o, E, E2) ==
+  /\ o[1] = 1 /\ o[5] = 0 /\ o[6] = 0 /\ o[7] = 0
+  /\ IF op[1] \in AccTerminalKinds
+     THEN \* remainder(y): what is held afterwards is congruent to the sum modulo y (its range: the "rem" record)
+          op[2] = 0 /\ op[3] > 0 /\ AccResidue(<<o[2], o[3], o[4]>>, op[3], r.bb) = AccResidue(E, op[3], r.bb)
+     ELSE <<o[2], o[3], o[4]>> = AccNorm(E2, r.bb)
+  /\ (op[1] = 7 => /\ Len(o) = 8 /\ AccCmpFamily(o[8])
+                   /\ (AccCmpDecided(E, op[2], op[3], r.bb) => o[8][1] = AccCmp3(E, op[2], op[3], r.bb)))
 RECURSIVE AccRun(_, _, _)
 AccRun(r, i, E) ==
   IF i > Len(r.ops) THEN TRUE
-  ELSE LET E2 == AccApply(E, r.ops[i])  o == r.obs[i] IN
-       /\ o[1] = 1 /\ <<o[2], o[3], o[4]>> = AccNorm(E2, r.bb) /\ o[5] = 0 /\ o[6] = 0 /\ o[7] = 0
+  ELSE LET E2 == AccApply(E, r.ops[i]) IN
+       /\ AccObsOK(r, r.ops[i], r.obs[i], E, E2)
        /\ AccRun(r, i + 1, E2)
 RECURSIVE AccFinal(_, _, _)
 AccFinal(r, i, E) == IF i > Len(r.ops) THEN AccNorm(E, r.bb) ELSE AccFinal(r, i + 1, AccApply(E, r.ops[i]))
 AccLaws(r) == <<
-  <<"acc-shape", Len(r.ops) = Len(r.obs) /\ r.bb = (IF r.ty = "f" THEN 15 ELSE 30)>>,
+  <<"acc-shape", /\ Len(r.ops) = Len(r.obs) /\ r.bb = (IF r.ty = "f" THEN 15 ELSE 30) /\ Len(r.ops) >= 1
+                 /\ r.ops[1][1] \in AccCtorKinds /\ \A i \in 2..Len(r.ops) : r.ops[i][1] \notin AccCtorKinds
+                 /\ \A i \in 1..(Len(r.ops) - 1) : r.ops[i][1] \notin AccTerminalKinds>>,
   <<"acc-holds-exact-sum", Len(r.ops) = Len(r.obs) => AccRun(r, 1, AccZero)>>
   >>
-\* obs[i] = <<op kind, peeled ok, |held - exact| in units of 2^(2-2p) max|partial|, number of rounding operations so far,
-\*            distance of a(0) from the rounded held value, probe mismatch, probe changed state>>
+\* obs[i] = <<op kind, peeled ok, |held - exact| in units of 2^(2-2p) max|partial|, number of rounding operations so far
+\*            (0 right after "set sum = y"), distance of a(0) from the rounded held value, probe mismatch, probe changed state>>
 AccrLaws(r) == <<
   <<"acc-holds-sum", \A i \in 1..Len(r.obs) : r.obs[i][2] = 1 /\ r.obs[i][3] <= r.obs[i][4]>>,
   <<"acc-rounded-value", \A i \in 1..Len(r.obs) : r.obs[i][5] = 0>>,
   <<"acc-probe", \A i \in 1..Len(r.obs) : r.obs[i][6] = 0 /\ r.obs[i][7] = 0>>,
+  <<"acc-compare", \A i \in 1..Len(r.cmps) : AccCmpFamily(r.cmps[i])>>,
   <<"acc-remainder", r.rk = 0>>
   >>
+\* remainder(y): "Reduce accumulator to the range [-y/2, y/2]".  rh = exact comparison of |held afterwards| with y/2;
+\* on the integer lattice the value is the centred residue of the value held before (Accumulator!AccRemSet)
+RemLaws(r) == <<
+  <<"acc-remainder-range", r.rh <= 0>>,
+  <<"acc-remainder-centred", r.lat = 1 /\ r.b > 0 => AccSmall(r.after, r.bb) \in AccRemSet(r.before, r.b, r.bb)>>
+  >>
+
+(* ----------------------------- helpers ---------------------------------- *)
+\* polyval on the integer lattice: the exact value (logged as an integer, ex = it is one); sq on the binary32 lattice: the exact
+\* square; otherwise exact residuals from the driver (number of representable values between the result and the correctly
+\* rounded exact value: 0 = correctly rounded)
+MscLaws(r) ==
+  CASE r.k = "pv" -> <<
+         <<"polyval", r.ex /\ r.v = PolyVal(r.p, r.x)>>,
+         <<"polyval-constant", r.n0nan /\ r.n0inf>> >>       \* N = 0 returns p_0 even if x is infinite or a nan
+    [] r.k = "sq" -> <<
+         <<"sq", r.u = 0>>,
+         <<"f-sq", r.ty = "f" /\ 2 * r.xe >= -126 /\ 2 * r.xe <= 100 => r.y = SqN(r.xm, r.xe)>> >>
+    [] r.k = "nrm" -> << <<"norm", r.ux = 0 /\ r.uy = 0>> >>       \* x / h, y / h correctly rounded (h exact on the lattice)
+    [] r.k = "h3" -> << <<"hypot3-axis", r.same>> >>               \* sqrt(x^2 + 0 + 0) = |x| bit for bit, in every position
+    [] r.k = "swab" -> << <<"swab", r.rev /\ r.inv>> >>            \* bytes reversed; an involution
+    [] r.k = "const" -> << <<"nan-infinity", r.nan /\ r.pinf>> >>
+    [] OTHER -> << <<"unknown-helper", FALSE>> >>
 
 Laws(r) ==
-  CASE r.e = "one" -> OneLaws(r) [] r.e = "two" -> TwoLaws(r) [] r.e = "trp" -> TrpLaws(r)
-    [] r.e = "tau" -> TauLaws(r) [] r.e = "acc" -> AccLaws(r) [] r.e = "accr" -> AccrLaws(r)
+  CASE r.e = "msc" -> MscLaws(r) [] r.e = "one" -> OneLaws(r) [] r.e = "two" -> TwoLaws(r) [] r.e = "trp" -> TrpLaws(r)
+    [] r.e = "tau" -> TauLaws(r) [] r.e = "acc" -> AccLaws(r) [] r.e = "accr" -> AccrLaws(r) [] r.e = "rem" -> RemLaws(r)
     [] OTHER -> << <<"unknown-record-kind", FALSE>> >>
 
 Obligation(r) == LET L == Laws(r) IN \A i \in 1..Len(L) : L[i][2]
